@@ -176,10 +176,21 @@ func TestC16(t *testing.T) {
 		go func(jb job) {
 			defer wg.Done()
 			defer func() { <-sem }()
-			cr := r.RunChild("TestC16", "c16", map[string]string{
-				"SEED": fmt.Sprint(r.Seed), "FIRST": fmt.Sprint(jb.first), "COUNT": fmt.Sprint(jb.count),
-				"MODE": jb.mode, "STRESS": fmt.Sprint(jb.stress), "POOL": poolDir,
-			}, 25*time.Minute)
+			var cr core.ChildResult
+			for attempt := 0; attempt < 4; attempt++ {
+				cr = r.RunChild("TestC16", "c16", map[string]string{
+					"SEED": fmt.Sprint(r.Seed), "FIRST": fmt.Sprint(jb.first), "COUNT": fmt.Sprint(jb.count),
+					"MODE": jb.mode, "STRESS": fmt.Sprint(jb.stress), "POOL": poolDir,
+				}, 25*time.Minute)
+				// a listener port picked by the kit was taken by another process before heimdall bound it: heimdall
+				// logs fatally and exits(1); that is a property of the test bed, the batch is simply run again
+				if cr.Exit == 1 && cr.Panic == "" && len(cr.Races) == 0 && strings.Contains(tail(cr.Output, 40), "HEIMDALL-FATAL:") &&
+					strings.Contains(tail(cr.Output, 40), "listener") {
+					r.Count("child_restarts_after_port_collision", 1)
+					continue
+				}
+				break
+			}
 			mu.Lock()
 			defer mu.Unlock()
 			tag := fmt.Sprintf("%s first=%d count=%d stress=%d", jb.mode, jb.first, jb.count, jb.stress)
